@@ -313,7 +313,8 @@ def load_known(prop):
         return []
     with open(KNOWN) as f:
         k = json.load(f)
-    return [e for e in k.get("findings", []) if e["property"] == prop and e.get("status", "open") == "open"]
+    return [e for e in k.get("findings", [])
+            if prop in e.get("properties", [e.get("property")]) and e.get("status", "open") == "open"]
 
 
 def write_replay(prop, case):
